@@ -405,6 +405,65 @@ func scenarioChainTwoConnections(bound int) *vh.SchedScenario {
 	}}
 }
 
+// scenarioDuplicateOnTwoConnections (C05): the same single-part file is transmitted twice at the
+// same time (the answer to the first request was lost, the sender repeats it while the first is
+// still being processed). One delivery, one log record, and the poll says passed.
+func scenarioDuplicateOnTwoConnections(twoParts bool, bound int) *vh.SchedScenario {
+	name := "same-file-on-two-connections"
+	if twoParts {
+		name = "same-two-part-file-on-two-connections"
+	}
+	return &vh.SchedScenario{Name: name, Bound: bound, Build: func(x *vrt.Sched) func(*vrt.Sched) (string, string, string) {
+		files := []*sFile{{Key: "a1", Name: "a", Data: "AAAA", Cuts: []int64{0, 4}}}
+		if twoParts {
+			files = []*sFile{{Key: "a1", Name: "a", Data: "AAAABBBB", Cuts: []int64{0, 4, 8}}}
+		}
+		sw := newSchedWorld(files)
+		if twoParts {
+			sw.recv("a1", 0, false) // sequential prefix
+			x.Go("conn1", func() { sw.recv("a1", 1, false) })
+			x.Go("conn2", func() { sw.recv("a1", 0, false); sw.recv("a1", 1, false) })
+		} else {
+			x.Go("conn1", func() { sw.recv("a1", 0, false) })
+			x.Go("conn2", func() { sw.recv("a1", 0, false) })
+		}
+		return func(x *vrt.Sched) (string, string, string) {
+			defer sw.close()
+			if x.Deadlock != "" || x.Diverged != "" {
+				return "", "", ""
+			}
+			final, log, stage := sw.finish()
+			nrec := 0
+			for _, rec := range log {
+				if strings.HasPrefix(rec, "a|") {
+					nrec++
+				}
+			}
+			status := sw.w.st.GetFileStatus("a", sw.ftime())
+			if nrec > 1 {
+				return fmt.Sprintf("a was transmitted twice at the same time and is recorded %d times in the receive log (no crash): log=%v final=%v", nrec, log, final), sw.class(), ""
+			}
+			if nrec == 1 && status != sts.ConfirmPassed {
+				return fmt.Sprintf("a was delivered and logged, yet after the overlapping retransmission the poll answers %d (not passed): the sender would send it again; staging=%v", status, stageNames(stage)), sw.class(), ""
+			}
+			if nrec == 0 || len(final) != 1 {
+				return fmt.Sprintf("a was acknowledged on both connections but is not delivered exactly once: final=%v log=%v staging=%v errors=%v", final, log, stageNames(stage), sw.errs), sw.class(), ""
+			}
+			return "", "", fmt.Sprintf("delivered once, errors=%v", sw.errs)
+		}
+	}}
+}
+
+func TestC05Sched(t *testing.T) {
+	b := 1
+	if vh.Thorough() {
+		b = 2
+	}
+	runSchedScenarios(t, "C05", "a retransmission overlapping the original (E-SCHED)", []*vh.SchedScenario{
+		scenarioDuplicateOnTwoConnections(false, b), scenarioDuplicateOnTwoConnections(true, b),
+	}, fmt.Sprintf("all interleavings with <= %d preemptions of two connections delivering the same single-part file, and of the last part of a two-part file on one connection against both parts again on another, with the stage's validators and finalizer: one delivery, one log record, poll answers passed", b))
+}
+
 func TestC04Sched(t *testing.T) {
 	b := 1
 	if vh.Thorough() {
@@ -572,7 +631,7 @@ func TestSchedRace(t *testing.T) {
 	n := 40
 	for _, sc := range []*vh.SchedScenario{
 		scenarioTwoParts(false, 0), scenarioTwoParts(true, 0), scenarioTwoFiles(false, 0), scenarioTwoFiles(true, 0),
-		scenarioNewVersion(0), scenarioChainTwoConnections(0), scenarioHeldVsNewVersion(0), scenarioCleanVsTransfer(false, 0), scenarioCleanVsTransfer(true, 0), scenarioRecoveryWindow(0),
+		scenarioNewVersion(0), scenarioChainTwoConnections(0), scenarioDuplicateOnTwoConnections(false, 0), scenarioDuplicateOnTwoConnections(true, 0), scenarioHeldVsNewVersion(0), scenarioCleanVsTransfer(false, 0), scenarioCleanVsTransfer(true, 0), scenarioRecoveryWindow(0),
 	} {
 		vh.FreeRunSched(t, rep, sc, n)
 	}
